@@ -78,6 +78,59 @@ CHECKS["C20"] = dict(
          "(the statement does not name them); 'started' = --bind accepts TCP.",
     design="§6 C20")
 
+CHECKS["C06"] = dict(
+    category="exploration",
+    technique="TLA+ decision-table spec Idempotency.tla (grammar as derivation system, three-valued ground truth, invariants Disjoint/Compositional/"
+              "Monotone/Roots) enumerated and simulated by TLC; exported rows replayed into parser.IsQueryIdempotent by harness/cmd/vdrv-idem; seeded "
+              "byte-level mutation and child-process deep-nesting probes for totality",
+    text="every abstract CQL statement derivable within the weight budget (exhaustive TLC enumeration of the grammar's derivation system; thorough: "
+         "4.1e5 sentences, plus 4e4 seeded deep derivations to term depth 7) is rendered in 8 spellings and classified by the real "
+         "parser.IsQueryIdempotent: must-be-false rows (now()/uuid() anywhere, LWT, counter/list/ambiguous update ops, delete by index, counter batch, "
+         "non-DML, garbage) are never reported idempotent, plain mutations and SELECT always are, and the answer never depends on case/white space/;/"
+         "quoting/qualification; byte-level mutants and deep-nesting probes never panic, hang, crash or return idempotent together with a parse error",
+    note="Bounded: weight <=3 exhaustive (collections/arg lists/batches <=2), random derivations to weight 7/width 3. Trusts the concretiser render.go "
+         "(abstract sentence -> CQL text; all spellings equivalent under CQL lexical rules). Verdict deliberately open (stability only) for non-now/uuid "
+         "function calls, casts, col +/- primitive, non-mutation WHERE forms, truncated statements. Totality part has no TLA+ oracle beyond Garbage => "
+         "not idempotent. Known finding: dollar-quoted strings.",
+    design="§6 C06")
+CHECKS["C07"] = dict(
+    category="model_checking",
+    technique="TLA+ spec Session.tla model-checked with TLC; traces of concurrent USE/data histories recorded from the real proxy validated by TLC "
+              "against TraceSession.tla (trace validation, code->spec)",
+    text="TLC checks ForwardInClientKs, OnlyValidKs, FailedUseKeepsKs and Isolation on all interleavings of UseConnect/UseStore/UseReply/Forward of 3 "
+         "clients; in recorded traces every data request must arrive at the backend on a connection whose keyspace (as the backend folds it), protocol "
+         "version and compression are the submitting client's at submission time, a valid USE is answered SET_KEYSPACE with the folded name, an invalid "
+         "one with an error carrying the backend's message and no change of keyspace; histories include quoted / mixed-case / non-existent keyspaces, "
+         "v3/v4, none/lz4/snappy and all clients switching to the same new keyspace at the same instant",
+    note="Each client is sequential (a USE is answered before its next frame); the failed-USE check recognises the backend's message text, not its "
+         "error code (the proxy documents a server error carrying the message); trusts the fake backend's USE semantics.",
+    design="§6 C07")
+CHECKS["C13"] = dict(
+    category="model_checking",
+    technique="TLA+ behavioural spec ClientConn.tla model-checked with TLC; TLC-exported behaviours with allowed-outcome sets and a probe table replayed by "
+              "harness/cmd/vdrv-handshake against the in-process proxy (spec->code); concrete version/opcode byte sweep judged by the exported table; per-run "
+              "corrupted-oracle self-test",
+    text="OPTIONS/STARTUP/REGISTER get exactly one SUPPORTED/READY/ERROR and never reach the backend; every known version above the configured maximum or "
+         "below v3 gets exactly one protocol error naming the version in that version, is not forwarded and leaves the connection and its state untouched "
+         "(unknown version bytes: that error or a close, never forwarded); an unsupported compression gets only an error; a supported one (any letter case) "
+         "switches this connection only, both directions - as invariants of ClientConn.tla over all <=4-frame sequences on 2 connections for MaxVersion "
+         "3,4,5,DSEv1,DSEv2, and every exported sequence plus the full single-frame table replayed against the real proxy over raw sockets",
+    note="Observable-level spec. Sequence alphabet of 6 (quick) / 8-12 (thorough) frame classes, length 4, 2 connections; full alphabet only as single "
+         "frames in 4 connection states; late extra frames looked for during a 25 ms quiet window; 'forwarded' observed by hook pending.store plus the fake "
+         "backend's token log; response/undefined opcodes, direction bit, hostile bodies on accepted versions, PREPARE/EXECUTE/BATCH/AUTH_RESPONSE, snappy "
+         "on v5, REGISTER/QUERY before STARTUP left open (recorded, not judged); no trace validation.",
+    design="§6 C13")
+CHECKS["C18"] = dict(
+    category="exploration",
+    technique="lock-discipline invariants of Session.tla / Request.tla checked by TLC; the specification-driven concurrent scenario families (request "
+              "lifecycle with drops and re-prepares, USE histories, gated hazard schedules) executed against the real proxy under the Go race detector",
+    text="Every scenario family of C01/C02/C07/C08 is executed with the proxy in-process in a -race build; any detector report whose two stacks are in "
+         "github.com/datastax/cql-proxy, and any 'concurrent map' abort, is a violation keyed by the pair of access sites. The TLA+ models contribute the lock "
+         "discipline of the design (TableWriteExclusive, MutexOK) and the schedules; the memory-model verdict is the detector's.",
+    note="A TLA+ model cannot observe Go's memory model: this check is only partially inside the technique (DESIGN §7). The detector reports only races that "
+         "the executed schedules exhibit. Event fan-out (C14) and topology (C16) families are added when those drivers exist.",
+    design="§6 C18, §7")
+
 NOT_YET = "check not built yet in this session (planned, see DESIGN.md §6)"
 
 
